@@ -103,6 +103,16 @@ def make_inputs(chk, work, rng, n, nfam=None):
     fam_first = len(hs) - len(variants)
     family = [f for f in files if int(re.findall(r"\d+", f.name)[0]) >= fam_first]
     files = [f for f in files if f not in family]
+    # inputs with an "idle" block (a block without items that still carries statistics and tables; written by TLC from real
+    # files, Rewrite!IdleBlock): it contributes nothing, and the blocks after it are what they were
+    from checks.reader_common import tlc_variants
+    idle_dir = work / "idle"
+    idle_dir.mkdir()
+    srcs = [f for f in files if f.stat().st_size < 8000][:10]
+    for f, v, b in tlc_variants(work, srcs, "idle", 3, chk.seed):
+        q = idle_dir / f"{f.stem}_idle{v}.cdns"
+        q.write_bytes(b)
+        files.append(q)
     if len(files) < 3 or len(family) != len(variants):
         raise vlib.Infra(f"input files missing: {len(files)} files, {len(family)} of {len(variants)} family files")
     chk.extra["parameter_neighbour_files"] = [v[0] for v in variants]
@@ -208,6 +218,9 @@ def run(tier):
     fam_tuples = [[family[0], f] for f in family[1:]] + [[f, family[0]] for f in family[1::4]]
     fam_tuples += [[family[i], family[i + 1]] for i in range(1, len(family) - 1, 3)]
     fam_tuples.append(list(family[:6]))
+    idle = [f for f in files if "_idle" in f.name]
+    fam_tuples += [[f] for f in idle] + [[files[0], f] for f in idle[::2]] + [[f, files[1]] for f in idle[1::2]]
+    chk.extra["inputs_with_an_idle_block"] = len(idle)
     for tup in fam_tuples:
         run_tuple(tools, work, idx, [("ok", f, None, None) for f in tup], handles[idx % nsh])
         idx += 1
